@@ -143,6 +143,30 @@ Theorem C18_raw_read_failure_closes :
 Proof. exact raw_read_failure_closes. Qed.
 Print Assumptions C18_raw_read_failure_closes.
 
+(* ---- refusal is decided by the error code alone ---- *)
+(* [refused r := error_code r <> 0]: two responses that differ only in their error_message
+   (null, empty, any text) are the same reaction, hence the same verdict in every state. *)
+Theorem C18_refusal_ignores_message : forall code m1 m2 payload,
+  refused (mkResp code m1 payload) = refused (mkResp code m2 payload) /\
+  reaction_of_response (mkResp code m1 payload) = reaction_of_response (mkResp code m2 payload) /\
+  (forall step, fault_of_response step (mkResp code m1 payload) = fault_of_response step (mkResp code m2 payload)).
+Proof. exact refusal_ignores_message. Qed.
+Print Assumptions C18_refusal_ignores_message.
+
+(* a response with a non-zero error code — any int16, negative or >= 128 included, whatever
+   its message — at any step where it is possible fails the dial: error, connection closed,
+   never handed out, nothing afterwards *)
+Theorem C18_refused_response_fails :
+  forall mstate mstart mnext p a (s s' : state mstate) r,
+    reachable mstate mstart mnext p a s ->
+    refused r = true ->
+    step mstate mstart mnext p a s (LBroker (reaction_of_response r)) = Some s' ->
+    ph s' = PFailed /\ tr s' = EClose :: ERecv (RErr (error_code r)) :: tr s
+    /\ ~ In EHandOut (tr s') /\ ~ In EVerdict (tr s')
+    /\ (forall l, step mstate mstart mnext p a s' l = None).
+Proof. exact refused_response_fails. Qed.
+Print Assumptions C18_refused_response_fails.
+
 (* ---- non-vacuity ---- *)
 Definition adv01 (hs au : option Z) : advert := {| hs_max := hs; auth_max := au |}.
 
@@ -202,4 +226,14 @@ Example ex_raw_read_huge_prefix :
   raw_read Transport 3 [7; 8] EndSilence = mkRR RRTimeout 2 512 /\
   raw_read Transport (-1) [7; 8] EndClose = mkRR RRProtocol 0 0 /\
   rr_alloc (raw_read Transport 600 (repeat 0 600) EndClose) = (512 + 832)%N.
+Proof. vm_compute. repeat split; reflexivity. Qed.
+
+(* error 58 with a null message, Dialer path, framed exchange: refused; code 0 with a text: not *)
+Example ex_refusal_null_message :
+  trace (run_case Dialer (adv01 (Some 1) (Some 1)) MPlain CredRight
+           (fault_of_response 2 (mkResp 58 None []))) =
+  [ESend (MReq 18 0); ERecv (ROk []); ESend (MReq 17 1); ERecv (ROk []);
+   ESend (MReq 36 0); ERecv (RErr 58); EClose] /\
+  fault_of_response 2 (mkResp 0 (Some [1; 2]) []) = None /\
+  refused (mkResp (-1) (Some []) []) = true /\ refused (mkResp 200 None []) = true.
 Proof. vm_compute. repeat split; reflexivity. Qed.
